@@ -290,6 +290,10 @@ def hist_sum(ids):
     return [sum(hist_vec(i)[j] for i in ids) for j in range(4)]
 
 
+class ScriptedRunnerChild(ScriptedRunner):
+    """A thin subclass: everything the user wrote is inherited."""
+
+
 # --------------------------------------------------------------------------
 # the world
 # --------------------------------------------------------------------------
@@ -548,7 +552,9 @@ class World:
 
     # ---- one incarnation of the real code -----------------------------------
     def build_runner(self, cfg, pname):
-        return ScriptedRunner(self, cfg, pname)
+        # the user's rules (_run_simulation, _keep_going, the hooks) are written in the leaf class or inherited from a base
+        # class of the simulated runner (e.g. one base simulator, several thin subclasses)
+        return (ScriptedRunnerChild if cfg.get("inherited_rules") else ScriptedRunner)(self, cfg, pname)
 
     def run_incarnation(self, k, inc, last):
         pname = inc.get("params", "P1")
